@@ -273,6 +273,21 @@ def api_corners(run):
             if impl != "ModelNotEnoughSubunitsException":
                 run.violation("no reporting unit at all did not raise the dedicated error", input=case, impl=impl,
                               expected="ModelNotEnoughSubunitsException", predicate="gate_iff", signature="C14:gate-empty")
+    # a unit that is listed twice in the live data (an identical repeated row, or a repeated id with other counts) is an input error
+    for variant in ("identical", "different counts"):
+        e = exact_election(rng, 14, n_partial=2)
+        row = dict(e.cur.iloc[0])
+        if variant == "different counts":
+            row["results_turnout"] = int(row["results_turnout"]) + 7
+        e.cur = pd.concat([e.cur, pd.DataFrame([row])], ignore_index=True)
+        res = E.run_client(e, estimands=["turnout"], alphas=[0.7], pi_method="nonparametric", features=[])
+        case = {"api": True, "corner": "a reporting unit listed twice (" + variant + ")"}
+        run.case(case, True)
+        run.count("corner: duplicate unit")
+        if res.get("raises") != "ModelClientException":
+            run.violation("duplicate reporting unit ids were not rejected with the client error", input=case,
+                          impl={"outcome": res.get("raises", "completed")}, expected="ModelClientException", predicate="gate_iff",
+                          signature="C14:gate-duplicate", election=e.to_json())
     for alpha in (0.8, 0.7):
         need = int(math.ceil(impl_min("nonparametric", alpha)))
         for m in (0, need - 1, need, need + 1):
